@@ -453,6 +453,18 @@ func c11Transcript(req c11Req, o *ref.Oracle, resp *drv.Response, rng *rand.Rand
 	for _, variant := range req.Variants {
 		l := load()
 		base := variant
+		if i := strings.Index(variant, "+npi"); i >= 0 {
+			// a circuit with n public inputs (0, 1, 8, 9): their hash is the first thing the transcript absorbs after the digest; the
+			// empty list hashes to the zero hash without any permutation
+			var np int
+			fmt.Sscanf(variant[i+4:], "%d", &np)
+			pis := l.PWPI.PublicInputs[:0:0]
+			for j := 0; j < np; j++ {
+				pis = append(pis, gl.NewVariable(drv.RandBelow(rng, bigP)))
+			}
+			l.PWPI.PublicInputs = pis
+			variant, base = variant[:i], variant[:i]
+		}
 		if i := strings.Index(variant, "+pow"); i >= 0 {
 			// the transcript does not depend on the grinding difficulty: plonky2 always observes the witness and draws the response
 			var pb uint64
